@@ -89,7 +89,7 @@ def run(ctx):
     if ctx.replay:
         rep = json.load(open(ctx.replay))
         if rep.get("area") == "struct":
-            ctx.diff(area="struct", driver="drv_c09", n=1)
+            ctx.diff(area="struct", driver="drv_c09", n=1, stateful=True)
         elif rep.get("area") == "wf":
             outs = ctx.run_impl("wf", rep["ops"]) or []
             _oracle(ctx, "wf", rep["ops"], outs, "replay", [0])
@@ -97,7 +97,7 @@ def run(ctx):
         elif rep.get("area") == "val":
             _val(ctx, None, only=rep.get("val_t_lines") or [])
         return
-    ctx.diff(area="struct", driver="drv_c09", n={"quick": 120000, "thorough": 6000000},
+    ctx.diff(area="struct", driver="drv_c09", n={"quick": 120000, "thorough": 6000000}, stateful=True,
              trivial=lambda l, o: o in ("err", "ok -"),
              tagger=lambda l, o: ("struct:" + o.split(" ", 1)[0]) if l[:1] in "sf" else None,
              theorem="C09.parse_render_partial / parse_no_panic / precedence_table are about Eval.parseLoop; the "
